@@ -96,6 +96,13 @@ def z(n):
     return "(%d)%%Z" % int(n)
 
 
+def nat(n):
+    """Bounds are naturals in the Coq record.  The front end has been seen to publish a negative
+    init_progr_len (discount larger than the block); it is clamped to 0 here -- the validator
+    `check` does not read the bounds, and C16 reads them from the JSON."""
+    return max(0, int(n))
+
+
 def operand(x, t):
     if _is_int(x):
         return "OConst %s" % z(x)
@@ -158,8 +165,8 @@ def spec_term(sfs, t=None):
         olist(sfs["src_ws"], t), olist(sfs["tgt_ws"], t),
         ";\n   ".join(uinstr(i, t) for i in sfs["user_instrs"]),
         pairs(deps, t), pairs(sfs.get("memory_dependences", []), t), pairs(sfs.get("storage_dependences", []), t),
-        int(sfs["init_progr_len"]), int(sfs.get("max_progr_len", sfs["init_progr_len"])),
-        int(sfs["max_sk_sz"]), int(sfs.get("min_length", 0)))
+        nat(sfs["init_progr_len"]), nat(sfs.get("max_progr_len", sfs["init_progr_len"])),
+        nat(sfs["max_sk_sz"]), nat(sfs.get("min_length", 0)))
     return txt, t
 
 
